@@ -129,7 +129,7 @@ Init == tree = {} /\ last = <<>> /\ h = 0
 
 AddNode ==
   /\ Cardinality(tree) < MaxNodes
-  /\ Cardinality(tree) < PruneFrom \/ (h % PruneMod) = (Sel % PruneMod)
+  /\ IF Cardinality(tree) < PruneFrom THEN TRUE ELSE (h % PruneMod) = (Sel % PruneMod)
   /\ \E par \in {<<>>} \cup { n.p : n \in { x \in tree : IsDirKind(x.k) } } :
        /\ Len(par) < MaxDepth
        /\ \E i \in (IF par = <<>> THEN TopNames ELSE InnerNames) : \E k \in KindsOf[i] :
